@@ -306,6 +306,13 @@ func runC16(r *Run) {
 		}
 	}
 	wl.seqPrefixes = prefixes
+	if g.Chance(30) {
+		// key-change notifications switched off for the shard (a valid namespace setting): sequence
+		// updates are a separate stream and must keep flowing
+		wl.c.notifChooser = func(int64) bool { return false }
+		r.Knobs["notifications"] = "off"
+		r.Count("runs_with_notifications_off", 1)
+	}
 	neighbours := append(append([]string{}, pool...), "z", "t", "/t/b", "/t/a", "seq/b", "u/v", "r/s", "/r")
 	r.Knobs["prefixes"] = strings.Join(prefixes, ",")
 	subs := map[string][]*seqSubscriber{} // several concurrent subscribers per prefix
